@@ -698,18 +698,22 @@ def exec_misuse(script, w, simenv, tape, opts, feats, foreign=lambda at: None):
         p = build(False)
         args = {"b": bval} if kind == "unbound_one_of_many" else None
         foreign("after_build")
-        if not expect_parameter_error(lambda: simenv.engine(backend, opts).run(p, args=args), "unbound-free-parameter"):
+        eng_u = simenv.engine(backend, opts)
+        if not expect_parameter_error(lambda: eng_u.run(p, args=args), "unbound-free-parameter"):
             return
         full = {"a": aval, "b": bval} if kind == "unbound_one_of_many" else {"a": aval}
+        # the rejected run was the first of this engine, so the engine has no history: the retry - on the SAME engine, without reset, or
+        # on a new one, per script - starts from scratch and must equal the numeric twin
+        same_engine = rr.random() < 0.6
         try:
-            rs = simenv.engine(backend, opts).run(p, args=full)
+            rs = (eng_u if same_engine else simenv.engine(backend, opts)).run(p, args=full)
             rt = simenv.engine(backend, opts).run(build(True))
         except Exception as ex:  # noqa
             w.violation("misuse", "run-after-rejected-run-raises", {"exc": type(ex).__name__, "msg": str(ex)[:300]}, feats)
             return
         d = obs_diff(state_obs(rt.state), state_obs(rs.state), 1e-7 if backend != "fock" else 1e-6)
         if d:
-            w.violation("substitution", "bound-run-after-rejected-unbound-run vs numeric twin", {"diff": d, "daggered_symbolic_gate": sym_dag}, feats)
+            w.violation("substitution", "bound-run-after-rejected-unbound-run vs numeric twin", {"diff": d, "daggered_symbolic_gate": sym_dag, "same_engine_no_reset": same_engine}, feats)
         else:
             w.probes["rerun_after_parameter_error_matches_twin"] += 1
         return
@@ -778,7 +782,20 @@ def exec_misuse(script, w, simenv, tape, opts, feats, foreign=lambda at: None):
             a = p.params("a")
             ops.Rgate(a) | q[0]
         foreign("after_build")
-        expect_parameter_error(lambda: simenv.engine(backend, opts).run(p, args={"a": 0.1, "nope": 0.2}), "unknown-parameter-name")
+        if not expect_parameter_error(lambda: simenv.engine(backend, opts).run(p, args={"a": 0.1, "nope": 0.2}), "unknown-parameter-name"):
+            return
+        if backend != "bosonic":
+            # the same with a list of programs: a name unknown to every segment is rejected, not dropped
+            p1 = sf.Program(n)
+            with p1.context as q:
+                ops.Rgate(p1.params("a")) | q[0]
+            p1.params("nope2") if False else None
+            p2 = sf.Program(p1)
+            with p2.context as q:
+                ops.Dgate(p2.params("a") * 0.2 + 0.1) | q[0]
+            p1.bind_params({"a": 0.3})
+            p2.bind_params({"a": 0.3})
+            expect_parameter_error(lambda: simenv.engine(backend, opts).run([p1, p2], args={"dips": 0.9}), "unknown-parameter-name-with-program-list")
         return
 
 
